@@ -5,6 +5,8 @@ CONSTANTS Pkgs <- P2
  Under <- UnderNested2
  RootPkg = "none"
  HashCoversSum = FALSE
+ SaveAlways = TRUE
+ KeepAfterDefers = TRUE
  BehChoices <- Beh2Small
  ArgsMenu <- Args2Quiet
  MaxRuns = 5
